@@ -200,12 +200,12 @@ var lockNames = map[string]bool{"Lock": true, "Unlock": true, "RLock": true, "RU
 	"TryLock": true, "TryRLock": true, "RLocker": true}
 
 type pctx struct {
-	exp     *Pkg            // package of the closure (exporter)
-	met     *Pkg            // package metrics (methods of Metric)
-	m       string          // metric parameter
-	chans   map[string]bool // unbuffered label-set channels made in the closure
+	exp     *Pkg              // package of the closure (exporter)
+	met     *Pkg              // package metrics (methods of Metric)
+	m       string            // metric parameter
+	chans   map[string]bool   // unbuffered label-set channels made in the closure
 	funcVar map[string]string // parameters of the enclosing function with a named func type: name -> type name
-	plainFn map[string]int  // memo for callee checks: 1 plain, 2 not plain, 3 in progress
+	plainFn map[string]int    // memo for callee checks: 1 plain, 2 not plain, 3 in progress
 }
 
 // PathOfClosure translates the body of the closure of function fn.
@@ -237,11 +237,7 @@ func unknown(p *Pkg, n ast.Node, why string) PNode {
 // (our label-set loop) or "switch" (a switch/select arm).
 func (c *pctx) block(ss []ast.Stmt, brk string) []PNode {
 	var out []PNode
-	for i, s := range ss {
-		// a trailing `break` of a switch/select arm just ends the arm
-		if b, ok := s.(*ast.BranchStmt); ok && brk == "switch" && b.Tok == token.BREAK && b.Label == nil && i == len(ss)-1 {
-			continue
-		}
+	for _, s := range ss {
 		out = append(out, c.stmt(s, brk)...)
 	}
 	return out
@@ -379,6 +375,17 @@ func (c *pctx) stmt(s ast.Stmt, brk string) []PNode {
 	return one("Other")
 }
 
+// armBody drops the trailing unlabeled `break` of a switch/select arm (it
+// only ends the arm).  Any other break inside an arm becomes Unknown.
+func armBody(ss []ast.Stmt) []ast.Stmt {
+	if n := len(ss); n > 0 {
+		if b, ok := ss[n-1].(*ast.BranchStmt); ok && b.Tok == token.BREAK && b.Label == nil {
+			return ss[:n-1]
+		}
+	}
+	return ss
+}
+
 func allOther(ns []PNode) bool {
 	for _, n := range ns {
 		if n.K != "Other" {
@@ -434,14 +441,14 @@ func (c *pctx) arms(s ast.Stmt) []PNode {
 					return []PNode{unknown(p, b, "fallthrough")}
 				}
 			}
-			bodies = append(bodies, c.block(cl.Body, "switch"))
+			bodies = append(bodies, c.block(armBody(cl.Body), "switch"))
 		case *ast.CommClause:
 			if cl.Comm == nil {
 				hasDefault = true
 			} else if why := c.notPlain(cl.Comm); why != "" {
 				return []PNode{unknown(p, cl.Comm, why)}
 			}
-			bodies = append(bodies, c.block(cl.Body, "switch"))
+			bodies = append(bodies, c.block(armBody(cl.Body), "switch"))
 		}
 	}
 	if _, isSel := s.(*ast.SelectStmt); isSel && !hasDefault {
